@@ -801,7 +801,15 @@ impl<'a> OrderedChoiceValidator {
             Self::calc_containment(cst, sema, file);
             for rule in file.rule_decls(cst) {
                 if let Some(regex) = rule.regex(cst) {
-                    Self::check_containment(cst, sema, regex, diags);
+                    let rule_in_choice = sema.used_in_ordered_choice.contains(&rule.syntax());
+                    Self::check_containment(
+                        cst,
+                        sema,
+                        regex,
+                        diags,
+                        &mut FxHashMap::default(),
+                        rule_in_choice,
+                    );
                 }
             }
         }
@@ -903,11 +911,13 @@ impl<'a> OrderedChoiceValidator {
         sema: &mut SemanticData<'a>,
         regex: Regex,
         diags: &mut Vec<Diagnostic>,
+        markers: &mut FxHashMap<&'a str, NodeRef>,
+        rule_in_choice: bool,
     ) {
         match regex {
             Regex::Concat(concat) => {
                 for op in concat.operands(cst) {
-                    Self::check_containment(cst, sema, op, diags);
+                    Self::check_containment(cst, sema, op, diags, markers, rule_in_choice);
                 }
             }
             Regex::OrderedChoice(choice) => {
@@ -915,32 +925,32 @@ impl<'a> OrderedChoiceValidator {
                     diags.push(Diagnostic::nested_ordered_choice(&choice.span(cst)));
                 }
                 for op in choice.operands(cst) {
-                    Self::check_containment(cst, sema, op, diags);
+                    Self::check_containment(cst, sema, op, diags, markers, rule_in_choice);
                 }
             }
             Regex::Alternation(alt) => {
                 for op in alt.operands(cst) {
-                    Self::check_containment(cst, sema, op, diags);
+                    Self::check_containment(cst, sema, op, diags, markers, rule_in_choice);
                 }
             }
             Regex::Star(star) => {
                 if let Some(op) = star.operand(cst) {
-                    Self::check_containment(cst, sema, op, diags);
+                    Self::check_containment(cst, sema, op, diags, markers, rule_in_choice);
                 }
             }
             Regex::Optional(opt) => {
                 if let Some(op) = opt.operand(cst) {
-                    Self::check_containment(cst, sema, op, diags);
+                    Self::check_containment(cst, sema, op, diags, markers, rule_in_choice);
                 }
             }
             Regex::Plus(plus) => {
                 if let Some(op) = plus.operand(cst) {
-                    Self::check_containment(cst, sema, op, diags);
+                    Self::check_containment(cst, sema, op, diags, markers, rule_in_choice);
                 }
             }
             Regex::Paren(paren) => {
                 if let Some(op) = paren.inner(cst) {
-                    Self::check_containment(cst, sema, op, diags);
+                    Self::check_containment(cst, sema, op, diags, markers, rule_in_choice);
                 }
             }
             Regex::Commit(commit) => {
@@ -953,14 +963,32 @@ impl<'a> OrderedChoiceValidator {
                     diags.push(Diagnostic::action_in_ordered_choice(&action.span(cst)));
                 }
             }
+            Regex::NodeMarker(marker) => {
+                markers.insert(marker.number(cst), marker.syntax());
+            }
+            Regex::NodeCreation(creation) => {
+                // Backtracking truncates the nodes created during an attempt, but it cannot undo an
+                // insertion in front of them: the marker must be part of the same attempt.
+                if sema.used_in_ordered_choice.contains(&creation.syntax()) {
+                    let marker_in_choice = match creation.number(cst) {
+                        Some(number) => markers
+                            .get(number)
+                            .is_none_or(|marker| sema.used_in_ordered_choice.contains(marker)),
+                        None => rule_in_choice,
+                    };
+                    if !marker_in_choice {
+                        diags.push(Diagnostic::create_node_in_ordered_choice(
+                            &creation.span(cst),
+                        ));
+                    }
+                }
+            }
             Regex::Name(_)
             | Regex::Symbol(_)
             | Regex::Predicate(_)
             | Regex::Assertion(_)
             | Regex::NodeRename(_)
             | Regex::NodeElision(_)
-            | Regex::NodeMarker(_)
-            | Regex::NodeCreation(_)
             | Regex::Return(_) => {}
         };
     }
